@@ -33,7 +33,10 @@ func init() {
 	})
 }
 
-var csiGeoms = [][2]int{{14, 5}, {14, 6}, {12, 4}, {10, 3}, {6, 2}, {4, 2}}
+// The last three are deep schemes (coordinates beyond 2^31, bin numbers
+// beyond 2^31); record and query widths are capped there (gen.SpanCap)
+// because enumerating the bins under a wide interval is linear in its width.
+var csiGeoms = [][2]int{{14, 5}, {14, 6}, {12, 4}, {10, 3}, {6, 2}, {4, 2}, {14, 7}, {14, 10}, {1, 10}}
 
 func c04Plan(seed int64, tier string) []core.Case {
 	n := 150
@@ -124,10 +127,10 @@ func (b *baiIdx) reread(p []byte) (anyIndex, error) {
 	}
 	return &baiIdx{idx: idx, refs: b.refs}, nil
 }
-func (b *baiIdx) numRefs() int                               { return b.idx.NumRefs() }
-func (b *baiIdx) stats(i int) (index.ReferenceStats, bool)   { return b.idx.ReferenceStats(i) }
-func (b *baiIdx) unmapped() (uint64, bool)                   { return b.idx.Unmapped() }
-func (b *baiIdx) kind() string                               { return "bai" }
+func (b *baiIdx) numRefs() int                             { return b.idx.NumRefs() }
+func (b *baiIdx) stats(i int) (index.ReferenceStats, bool) { return b.idx.ReferenceStats(i) }
+func (b *baiIdx) unmapped() (uint64, bool)                 { return b.idx.Unmapped() }
+func (b *baiIdx) kind() string                             { return "bai" }
 
 type tbxRec struct {
 	name       string
@@ -259,7 +262,13 @@ func (ic *idxCase) build(rng *rand.Rand) (anyIndex, string, string) {
 					ix.write()
 				} else {
 					for ref := 0; ref < ic.set.NRefs; ref++ {
-						ix.query(ref, 0, ic.set.Max()-1)
+						b, e := 0, ic.set.Max()-1
+						if c := gen.SpanCap(ic.set.MinShift, ic.set.Depth); c > 0 {
+							// around the record just added
+							b = rec.Start / c * c
+							e = b + c
+						}
+						ix.query(ref, b, e)
 					}
 				}
 			})
@@ -347,7 +356,8 @@ func newIdxCase(rng *rand.Rand, kind string, geom int, real bool) (*idxCase, str
 		br.Close()
 		return ic, "", ""
 	}
-	f, spans := gen.Layout(rng, ic.set.Recs)
+	// tabix and CSI index files without a header: the first record may sit at offset 0
+	f, spans := gen.Layout(rng, ic.set.Recs, kind != "bai" && rng.Intn(3) == 0)
 	for _, sp := range spans {
 		bb, bo := f.VOffset(sp[0])
 		forms := f.VOffsetEnd(sp[1])
@@ -368,6 +378,9 @@ func (ic *idxCase) queries(rng *rand.Rand) [][3]int {
 		}
 		if e > max-1 {
 			e = max - 1
+		}
+		if c := gen.SpanCap(ic.set.MinShift, ic.set.Depth); c > 0 && e-b > c {
+			e = b + c
 		}
 		if e > b && ref >= 0 && ref < ic.set.NRefs {
 			set[[3]int{ref, b, e}] = true
